@@ -76,6 +76,13 @@ def forwards_equivalence(repo: Repo):
                 if facts.get(fact[0]) is fact[1]:
                     sel.append(p)
         if not sel:
+            pname = fact[0].split(" ")[0]
+            truthy = any(t == pname for p in paths for t, tr, _ in path_facts(p))
+            if truthy:
+                # the route is chosen by the truth value of the argument instead of `is None`: an empty-string target (the
+                # dimensionless unit) or any other falsy-but-given argument is treated as not given
+                yield (f"thread:{caller}->{callee}", False, fn.where(), f"{caller} decides whether `{pname}` was given by its truth value: {caller}('' ...) - the dimensionless target - takes the no-argument route and the request is not forwarded to {callee}")
+                continue
             raise AnalysisError(f"{fn.where()}: route {fact} not found")
         ok = True
         found = ""
